@@ -201,6 +201,16 @@ def step (_ : Unit) (ws : List String) : Unit × String :=
       let r := newSession cfg h fs
       showTrace r.1 (isCustom (Spec.credentials cfg h) && r.2 != 0) true s!"dials={r.2} post={bit (r.1.outcome = .ready)} "
     | _, _ => "bad-op"
+  -- property monitors evaluated by the harness on the OBSERVED trace (see harness/cmd/c20/child.go `monitor`):
+  -- every trace of the model satisfies them (C20_auth_resolution, C20_no_credentials_no_session,
+  -- C20_ready_only_after_success, C20_credentials_per_host, C20_custom_tokens_in_order, C20_challenge_requests,
+  -- C20_success_error_fails), so the model's answer is `ok` — except on the known fatal inputs
+  -- (C20_no_crash_partial / C20_cex_nil_challenger), where model and code both die
+  | "mon" :: h :: st :: pv :: fs => match parseConn h st pv, fs.mapM parseFrame with
+    | some (h, cfg), some fs =>
+      if cfg.static.isSome && cfg.provider.isSome then "bad-op"
+      else if (connect cfg h fs).outcome = .crash then "crash:authenticateHandshake" else "ok"
+    | _, _ => "bad-op"
   -- C20_session_config: both Authenticator and AuthProvider ⇒ refused before anything is dialled
   | "sesscfg" :: h :: st :: pv :: fs => match parseConn h st pv, fs.mapM parseFrame with
     | some (_, cfg), some _ =>
